@@ -673,14 +673,7 @@ func Join(ts ...*Task) {
 	if t == nil {
 		panic("simrt.Join outside simulation")
 	}
-	t.Park(OpJoin, 0, func() bool {
-		for _, x := range ts {
-			if x != nil && !x.Done() {
-				return false
-			}
-		}
-		return true
-	}, nil)
+	t.Park(OpJoin, 0, joinReq(ts).done, nil)
 	if t.killed.Load() {
 		return
 	}
@@ -690,6 +683,18 @@ func Join(ts ...*Task) {
 			<-x.doneCh
 		}
 	}
+}
+
+type joinReq []*Task
+
+//go:norace
+func (ts joinReq) done() bool {
+	for _, x := range ts {
+		if x != nil && !x.Done() {
+			return false
+		}
+	}
+	return true
 }
 
 // WaitUntil parks until pred holds (evaluated at quiescence).
